@@ -110,12 +110,12 @@ let site = function
 
 let run_man (a : Sx.t list) : string =
   match a with
-  | spec :: _ ->
+  | spec :: _ when Sx.head spec = "cmd" ->
     let (c, o) = build_cmd (Sx.args spec) in
     (match ManModel.man_page c o with
      | ManModel.Ok page -> "(page " ^ hex page ^ ") (det true)"
      | ManModel.Panic s -> "PANIC " ^ site s)
-  | _ -> "badcase"
+  | _ -> "BADCASE"
 
 let () =
   let lines = Sx.read_lines Sys.argv.(1) in
